@@ -188,6 +188,8 @@ def run(ctx):  # noqa: C901, PLR0912, PLR0915
            'SoapClient replaces a falsy supported_encodings argument by all available codings: a side that switched '
            'compression off (empty list) still compresses its requests, advertises and accepts every coding', fi=sci)
 
+    from .c08 import pool_user_released_under_its_netloc
+    pool_user_released_under_its_netloc(ctx, 'C17.R1')   # the pooled client carries the codings negotiated for ONE subscription
     # ------------------------------------------------------------------ R2
     ph = repo.func(f'{CH}.parse_header')
     ok, why = _q_zero_excluded(ph.node)
@@ -298,17 +300,23 @@ def run(ctx):  # noqa: C901, PLR0912, PLR0915
                f'decompressed all the same', fi=fi)
     # a truncated / corrupt stream must be rejected: one-shot zlib.decompress raises on an incomplete stream; a
     # streaming decompressobj does not - then .eof has to be checked
-    for q in ('sdc11073.httpserver.compression.GzipCompressionHandler.decompress_payload',):
+    decoders = sorted(q for q, f_ in repo.funcs.items() if q.startswith('sdc11073.httpserver.compression.') and
+                      f_.name == 'decompress_payload' and f_.cls is not None and
+                      f_.cls.name not in ('CompressionHandler', 'AbstractDataCompressor'))
+    ctx.floor('C17.R3', len(decoders), 2, 'decoders of content codings')
+    for q in decoders:
         fi = repo.func(q)
         src = xsrc(fi)
-        one_shot = any(unparse(c.func) == 'zlib.decompress' for c in calls_in(fi.node))
-        streaming = 'decompressobj' in src
+        one_shot = any(unparse(c.func) in ('zlib.decompress', 'gzip.decompress', 'lz4.frame.decompress')
+                       for c in calls_in(fi.node))
+        streaming = 'decompressobj' in src or 'Decompressor' in src
         eof_checked = '.eof' in src and any(isinstance(n, ast.Raise) for n in walk_no_nested(fi.node))
         ok = (one_shot and not streaming) or (streaming and eof_checked)
-        ctx.ob('C17.R3', 'gzip: incomplete stream rejected', ok,
-               'the gzip decoder rejects an incomplete stream (one-shot zlib.decompress, or a checked end-of-stream flag)'
-               if ok else 'the gzip decoder uses a streaming decompressobj without checking .eof: a truncated body is '
-                          'accepted and a prefix of the real message is returned', fi=fi)
+        kind = 'gzip' if fi.cls.name.startswith('Gzip') else fi.cls.name
+        ctx.ob('C17.R3', f'{kind}: incomplete stream rejected', ok,
+               f'the {kind} decoder rejects an incomplete stream (one-shot decompress, or a checked end-of-stream flag)'
+               if ok else f'the {kind} decoder uses a streaming decompressor without checking .eof: a truncated body is '
+                          'accepted and a prefix of the real message (possibly nothing) is returned', fi=fi)
     gh = repo.func(f'{CH}.get_handler')
     ctx.ob('C17.R3', 'unknown coding raises', any(isinstance(n, ast.Raise) for n in walk_no_nested(gh.node)),
            'CompressionHandler.get_handler raises for an unregistered coding', fi=gh)
